@@ -189,8 +189,8 @@ E("display-write-str", "src/literal.rs",
   """            Literal::True => write!(f, "true"),""",
   """            Literal::True => f.write_str("true"),""", "write_str for write!")
 E("range-gate-checked-sub", "src/literal.rs",
-  """                    && num_ty.max().is_none_or(|ty_max| max.saturating_sub(1) <= ty_max)""",
-  """                    && num_ty.max().is_none_or(|ty_max| max.checked_sub(1).unwrap_or(0) <= ty_max)""", "checked_sub(..).unwrap_or(0) for saturating_sub")
+  """                    && ty_max.is_none_or(|ty_max| max.saturating_sub(1) <= ty_max)""",
+  """                    && ty_max.is_none_or(|ty_max| max.checked_sub(1).unwrap_or(0) <= ty_max)""", "checked_sub(..).unwrap_or(0) for saturating_sub")
 # ---------------------------------------------------------------- env.rs
 E("env-get-find-map", "src/env.rs",
   """        for bindings in self.0.iter().rev() {
